@@ -41,7 +41,7 @@ func (s *histSpec) expand(raw json.RawMessage) (any, error) {
 		return nil, fmt.Errorf("parent history not replayable: %s", perr)
 	}
 	var kids []explore.Child
-	if len(in.History) == 0 {
+	if len(in.History) == 0 && in.Want(-1) {
 		c := explore.Child{Op: -1}
 		outc := map[string]struct{}{}
 		s.Check(cfg.Router, nil, pr, pt, &c, outc)
@@ -51,7 +51,7 @@ func (s *histSpec) expand(raw json.RawMessage) (any, error) {
 		kids = append(kids, c)
 	}
 	for k, op := range alpha {
-		if !Enabled(pt, op) {
+		if !Enabled(pt, op) || !in.Want(k) {
 			continue
 		}
 		full := append(append([]Op{}, hist...), op)
@@ -59,7 +59,7 @@ func (s *histSpec) expand(raw json.RawMessage) (any, error) {
 		c := explore.Child{Op: k}
 		if v, bad := ApplyImpl(r, op); bad {
 			c.Viols = append(c.Viols, explore.Violation{Property: s.Prop, Clause: s.Prop + ".no-panic", Class: "op-panic:" + shortPanic(v), Config: cfg.Router.String(), History: opsStrings(full),
-				Observed: fmt.Sprintf("%s panicked: %v", op, v), Expected: "no panic", Replay: mustJSON(histReplay{Kind: "op", Router: cfg.Router, Ops: full})})
+				Observed: fmt.Sprintf("%s panicked: %v", op, v), Expected: "no panic"})
 			c.Key, c.NoExpand = "panic:"+explore.Key(r), true
 			kids = append(kids, c)
 			continue
